@@ -99,7 +99,7 @@ type c06case struct {
 	Dir  Dir    `json:"dir"`
 	Word string `json:"word"`
 	RV   bool   `json:"as_reflect_value,omitempty"`
-	// how the reflect.Value is obtained: 0 reflect.ValueOf(v); 1 an interface-kind slice element holding v;
+	// how the reflect.Value is obtained: 0 reflect.ValueOf(v); 1 an interface-kind slice element holding v (4: of a slice typed with a non-empty interface);
 	// 2 a read-only interface-kind value (unexported field) holding v; 3 the read-only wrapper value itself
 	RVForm int `json:"reflect_value_form,omitempty"`
 }
@@ -202,6 +202,15 @@ func c06check(w *Worker, cs c06case, hook bool, idx int64) {
 				return reflect.ValueOf(tSUnexp{0, "", v}).Field(2)
 			case 3:
 				return reflect.ValueOf(tSUnexp{0, "", v}).Field(2).Elem()
+			case 4:
+				// an interface-kind value whose static type has methods (an element of []redact.SafeValue / []fmt.Formatter)
+				if sv, ok := v.(redact.SafeValue); ok {
+					return reflect.ValueOf([]redact.SafeValue{sv}).Index(0)
+				}
+				if fv, ok := v.(fmt.Formatter); ok {
+					return reflect.ValueOf([]fmt.Formatter{fv}).Index(0)
+				}
+				return reflect.ValueOf([]interface{}{v}).Index(0)
 			}
 			return reflect.ValueOf(v)
 		}
@@ -258,7 +267,7 @@ func c06check(w *Worker, cs c06case, hook bool, idx int64) {
 	if fmtComparable {
 		bc.resetCounters()
 		fx := x
-		if cs.RV && cs.RVForm != 0 {
+		if cs.RV && cs.RVForm != 0 && cs.RVForm != 4 {
 			fo = fmtWith(d, reflect.ValueOf(fx))
 		} else {
 			// (reflect.ValueOf(wrapper): the content is handed to the printer like a top-level operand)
@@ -273,7 +282,7 @@ func c06check(w *Worker, cs c06case, hook bool, idx int64) {
 			w.Violate("C06 unsafe-leak", "text outside envelopes under Unsafe: "+q(so)+" in "+q(out.out)+" for "+cs.String(), csf())
 			return
 		}
-		if fmtComparable && (!cs.RV || (cs.RVForm == 0 && cs.X.K != "nil" && !wrappedNil(cs.X) && !strings.HasPrefix(cs.X.K, "RV"))) {
+		if fmtComparable && (!cs.RV || ((cs.RVForm == 0 || cs.RVForm == 4) && !strings.HasPrefix(cs.X.K, "RV"))) {
 			if got, want := refStrip(p), esc(fo.out); got != want {
 				w.Violate("C06 unsafe-text", "stripped "+q(got)+" but fmt prints x as "+q(want)+" for "+cs.String(), csf())
 				return
@@ -309,7 +318,7 @@ func c06check(w *Worker, cs c06case, hook bool, idx int64) {
 			w.Violate("C06 safe-enveloped", "envelope under Safe: "+q(out.out)+" for "+cs.String(), csf())
 			return
 		}
-		if fmtComparable && (!cs.RV || (cs.RVForm == 0 && cs.X.K != "nil" && !wrappedNil(cs.X) && !strings.HasPrefix(cs.X.K, "RV"))) {
+		if fmtComparable && (!cs.RV || ((cs.RVForm == 0 || cs.RVForm == 4) && !strings.HasPrefix(cs.X.K, "RV"))) {
 			if want := esc(fo.out); out.out != want {
 				w.Violate("C06 safe-text", "Safe(x) prints "+q(out.out)+" but fmt prints x as "+q(want)+" for "+cs.String(), csf())
 				return
@@ -434,7 +443,7 @@ func runC06(c *Ctx) {
 		for _, dd := range []Dir{{Verb: "v"}, {Verb: "v", Flags: "+"}, {Verb: "v", Flags: "#"}, {Verb: "s", Width: "7"}, {Verb: "d"}, {Verb: "x", Flags: "#"}, {Verb: "q"}} {
 			for _, word := range wrapperWords {
 				cases = append(cases, c06case{X: l, Dir: dd, Word: word}, c06case{X: l, Dir: dd, Word: word, RV: true},
-					c06case{X: l, Dir: dd, Word: word, RV: true, RVForm: 1}, c06case{X: l, Dir: dd, Word: word, RV: true, RVForm: 2}, c06case{X: l, Dir: dd, Word: word, RV: true, RVForm: 3})
+					c06case{X: l, Dir: dd, Word: word, RV: true, RVForm: 1}, c06case{X: l, Dir: dd, Word: word, RV: true, RVForm: 2}, c06case{X: l, Dir: dd, Word: word, RV: true, RVForm: 3}, c06case{X: l, Dir: dd, Word: word, RV: true, RVForm: 4})
 			}
 		}
 	}
@@ -456,7 +465,7 @@ func runC06(c *Ctx) {
 		r := newRng(c.Seed, 0xc06, uint64(i))
 		cs := c06case{X: c06randX(r, o), Dir: randDir(r, genOpts{}, r.Chance(1, 5)), Word: wrapperWords[r.Intn(len(wrapperWords))], RV: r.Chance(1, 6)}
 		if cs.RV {
-			cs.RVForm = r.Intn(4)
+			cs.RVForm = r.Intn(5)
 		}
 		cs.Dir.Lit = ""
 		c06check(w, cs, hook, i)
